@@ -241,7 +241,10 @@ def sumTo (n : Nat) (f : Nat → α) : α :=
   | 0 => nat 0
   | m + 1 => sumTo m f + f m
 
-def csumTo (n : Nat) (f : Nat → Cx α) : Cx α := ⟨sumTo n fun j => (f j).re, sumTo n fun j => (f j).im⟩
+def csumTo (n : Nat) (f : Nat → Cx α) : Cx α :=
+  match n with
+  | 0 => Cx.zero
+  | m + 1 => Cx.add (csumTo m f) (f m)
 
 /-- angle `2π·j·k/n` -/
 def ang (n j k : Nat) : α := (nat 2 * pi) * nat (j * k) / nat n
@@ -255,14 +258,16 @@ def csdScale (n : Nat) : α := nat 2 / nat n / sqrt (nat 2)
 
 def meanTo (n : Nat) (f : Nat → α) : α := sumTo n f / nat n
 
-/-- `w/w.mean()*s` -/
-def applyWindow (n : Nat) (w s : Nat → α) : Nat → α := fun j => w j / meanTo n w * s j
+/-- `w/w.mean()*s` with `mu = w.mean()` -/
+def applyWindow (mu : α) (w s : Nat → α) : Nat → α := fun j => w j / mu * s j
 
 /-- `util.csd(s, window=None, detrend=None)[k]` -/
 def csd (n : Nat) (s : Nat → α) (k : Nat) : Cx α := Cx.smul (csdScale n) (dftBin n s k)
 
 /-- `util.csd(s, window=w, detrend=None)[k]` (`w = get_window(window, n)` is supplied) -/
-def csdW (n : Nat) (w s : Nat → α) (k : Nat) : Cx α := csd n (applyWindow n w s) k
+def csdW (n : Nat) (w s : Nat → α) (k : Nat) : Cx α :=
+  let mu := meanTo n w
+  csd n (applyWindow mu w s) k
 
 /-- `util.psd(s, fs, waveform_averages=avg, trim_samples=True, detrend=None)[k]` for a signal of
 length `N`: segments of `m = N // avg` samples, mean of the magnitudes. -/
